@@ -208,6 +208,10 @@ def task_visit_binop():
         ctx.check(name + '/folds-only-number-and-name-constant-operands',
                   z3.And(ctx.data(left).tagvar == tag_const('Constant'), ctx.data(right).tagvar == tag_const('Constant'), is_numlike(lc), is_numlike(rc))
                   if ok_consts else False, kind='post', detail='operands %r %r' % (lc, rc))
+        # C12: the same fact is the precondition of the evaluator call (its text is the printed form of root): no name, call or attribute can be in it
+        ctx.check('C12/folding/evaluated-expression-has-only-literal-operands',
+                  z3.And(ctx.data(left).tagvar == tag_const('Constant'), ctx.data(right).tagvar == tag_const('Constant'), is_numlike(lc), is_numlike(rc))
+                  if ok_consts else False, kind='pre@call', detail='operands of the expression handed to safe_eval: %r %r' % (lc, rc))
         op = ctx.data(rd.fields['op']).tagvar
         ctx.check(name + '/never-folds-division-or-power', z3.And(op != tag_const('Div'), op != tag_const('Pow')), kind='post')
         evals = [e for e in ev if e[0] == 'safe_eval']
